@@ -36,6 +36,11 @@ CLAIMS = {
          "Generated tie-heavy corpora and scoring queries that take the block-WAND union/intersection paths and generic boolean trees are ranked with every key kind, K and offset; the result must be exactly the slice [O, O+K) of the complete list sorted by (key, address) - bit-for-bit for exactly comparable keys, by a validity predicate for multi-clause float sums - and paging must enumerate every match once.",
          "complete list obtained through Collector::collect on the same searcher (no dynamic pruning); tolerance 4e-6 per clause for float sums",
          "DESIGN.md §3 C06"),
+ "C07": ("exploration",
+         "full read-back of the inverted index (dictionary order, doc_freq, postings, tf, positions, field norms, token counts) against a model built with the documented tokenisation/position rules; sequential, seek-program and block-API reads (proptest)",
+         "Generated document collections shaped to hit posting lists of length 1/127/128/129/256/257/20000+, sparse doc-id gaps, term frequencies and position counts over 128, terms up to 65530 bytes with long shared prefixes, all record options, fieldnorms on/off, three tokenizers, multi-valued fields with position gaps, and typed fields (u64/i64/f64/date/bool/bytes/ip/facet/JSON) are indexed and every dictionary entry and posting is compared with the model.",
+         "one segment per case; Term keys of typed and JSON fields come from tantivy's Term builders (order and postings are still checked against the model)",
+         "DESIGN.md §3 C07"),
  "C08": ("exploration",
          "round-trip and merge property testing of columnar data against a Vec-of-rows model, directly on the columnar crate and through tantivy fast fields (proptest)",
          "Generated tables (every column type and cardinality, row counts around the 64/512/1024/5120/65536 boundaries, value profiles that select each codec, extremes) are written, read back bit-for-bit in insertion order, checked for min/max bounds, cardinality and index consistency, value-range lookups vs brute force, sorted bijective dictionaries, and merged by stacking and by generated permutations with alive bitsets (also merged twice); the same through schema fast fields incl. JSON sub-paths and date precision before and after IndexWriter::merge with deletes.",
